@@ -163,11 +163,62 @@ def _recheck_one(d):
         shutil.rmtree(tmp, ignore_errors=True)
 
 
-def recheck(only=None):
+def _reconfirm_one(d):
+    """Demo on the current /repo: must pass; with the patch: must fail."""
+    mp = os.path.join(d, 'meta.json')
+    meta = json.load(open(mp))
+    demos = [f for f in os.listdir(d) if f.startswith('demo') and
+             f.endswith('.py')]
+    if not demos:
+        return (os.path.basename(d), 'no-demo', '')
+    out = []
+    for patched in (False, True):
+        tmp = tempfile.mkdtemp(prefix='reconf-', dir='/tmp')
+        try:
+            shutil.copytree('/repo/dd', os.path.join(tmp, 'dd'))
+            shutil.copy('/repo/doc.md', os.path.join(tmp, 'doc.md'))
+            if os.path.isdir('/repo/tests'):
+                shutil.copytree('/repo/tests', os.path.join(tmp, 'tests'))
+            if patched:
+                rc, o = sh(f'patch -p1 -s < {d}/patch.diff', cwd=tmp)
+                if rc:
+                    return (os.path.basename(d), 'PATCH-FAILS', o[:80])
+            shutil.copy(os.path.join(d, demos[0]),
+                        os.path.join(tmp, 'demo.py'))
+            rc, o = sh('/venv/bin/python demo.py', cwd=tmp,
+                       env={'PYTHONPATH': tmp}, timeout=1800)
+            out.append(rc)
+        finally:
+            shutil.rmtree(tmp, ignore_errors=True)
+    status = 'ok' if out[0] == 0 and out[1] != 0 else (
+        'NEUTRALISED' if out[0] == 0 and out[1] == 0 else 'DEMO-BROKEN')
+    meta['reconfirmed'] = dict(demo_before=out[0], demo_after=out[1],
+                               status=status)
+    json.dump(meta, open(mp, 'w'), indent=1)
+    return (os.path.basename(d), status, out)
+
+
+def reconfirm(only=None):
     from concurrent.futures import ProcessPoolExecutor
     dirs = [d for d in sorted(glob.glob(os.path.join(HERE, 'seeded', '*')))
             if os.path.exists(os.path.join(d, 'meta.json'))
             and (only is None or only in os.path.basename(d))]
+    with ProcessPoolExecutor(16) as ex:
+        rows = list(ex.map(_reconfirm_one, dirs))
+    for r in rows:
+        if r[1] != 'ok':
+            print(*r)
+    print(len(rows), 'changes;', sum(1 for r in rows if r[1] == 'ok'),
+          'still break the property on the current tree')
+
+
+def recheck(only=None):
+    from concurrent.futures import ProcessPoolExecutor
+    dirs = [d for d in sorted(glob.glob(os.path.join(HERE, 'seeded', '*')))
+            if os.path.exists(os.path.join(d, 'meta.json'))
+            and (only is None or only in os.path.basename(d))
+            and not json.load(open(os.path.join(d, 'meta.json'))).get(
+                'obsolete')]
     with ProcessPoolExecutor(16) as ex:
         rows = list(ex.map(_recheck_one, dirs))
     for r in rows:
@@ -191,5 +242,7 @@ if __name__ == '__main__':
         if '--tag' in sys.argv:
             tag = sys.argv[sys.argv.index('--tag') + 1]
         sys.exit(verify(sys.argv[2], sys.argv[3], note, src_root, tag))
+    elif sys.argv[1] == 'reconfirm':
+        reconfirm(sys.argv[2] if len(sys.argv) > 2 else None)
     elif sys.argv[1] == 'recheck':
         recheck(sys.argv[2] if len(sys.argv) > 2 else None)
